@@ -169,6 +169,21 @@ func (p *parser) checkedDeclaration() ast.Statement {
 	return stmt
 }
 
+// parses the single (non-block) statement that forms the body of a control-flow statement
+// declarations that do not produce an Ast Node (alias declarations) or that failed to parse
+// are reported and replaced by a BadStmt, so that the result is never nil
+func (p *parser) checkedBodyStatement() ast.Statement {
+	start := p.peek()
+	if stmt := p.checkedDeclaration(); stmt != nil {
+		return stmt
+	}
+	p.err(ddperror.SYN_UNEXPECTED_TOKEN, token.NewRange(start, p.previous()), "Hier wurde eine Anweisung erwartet")
+	return &ast.BadStmt{
+		Tok: *start,
+		Err: p.lastError,
+	}
+}
+
 // entry point for the recursive descent parsing
 func (p *parser) declaration() ast.Statement {
 	if p.matchAny(token.DER, token.DIE, token.DAS, token.WIR) { // might indicate a function, variable or struct
